@@ -1,6 +1,6 @@
 SPECIFICATION MCSpec
 CONSTANTS
   MaxFrags = 4
-  Quick = FALSE
+  Quick = TRUE
   Layout = TRUE
 INVARIANTS CursorExact PositionExact HtmlExact Coverage TrimFlags LexesCleanly AgreeAtEnd Emit
